@@ -194,6 +194,7 @@ def apply_op(idnt, op, log=None):
     out = {"ok": True}
     nmin0 = PLAN.total["minimize"]
     nrat0 = PLAN.total["get_rater"]
+    nap0, napr0 = PLAN.apply_calls, PLAN.apply_returned
     try:
         with warnings.catch_warnings():
             warnings.simplefilter("ignore")
@@ -203,6 +204,10 @@ def apply_op(idnt, op, log=None):
                 route = op.get("route", "apply")
                 if route == "apply":
                     idnt.apply_preprocessing(steps, options)
+                elif route == "details":
+                    d = idnt.apply_preprocessing(steps, options,
+                                                 ret_details=True)
+                    out["ret"] = sorted(d) if isinstance(d, dict) else None
                 elif route == "attr":
                     idnt.preprocessing = steps
                     if options is not None:
@@ -252,6 +257,8 @@ def apply_op(idnt, op, log=None):
         fired = PLAN.fired
         PLAN.disarm()
     out["minimize_calls"] = PLAN.total["minimize"] - nmin0
+    out["apply_calls"] = PLAN.apply_calls - nap0
+    out["apply_returned"] = PLAN.apply_returned - napr0
     out["rater_constructions"] = PLAN.total["get_rater"] - nrat0
     if fired:
         out["fired"] = fired
@@ -268,23 +275,22 @@ def stored_settings(idnt):
 
 
 FRESH_MEMO = {}
+FRESH_OBJ_MEMO = {}
 
 
-def build_fresh(idnt, cfg):
-    """Observation of a freshly built copy of the curve with the *stored*
-    settings applied once. Returns (observation, error string or None).
-
-    Memoised per run on (curve, encoded stored settings, claims-a-fit,
-    holds-scan-arrays): the fresh copy is a deterministic function of these
-    (that determinism is what the null-history self-test checks), and most
-    ops leave the stored settings unchanged.
-    """
+def fresh_key(idnt, cfg):
     S = stored_settings(idnt)
     claims = "hash" in idnt.fit_properties
     arrays = "optimal_fit_E_array" in idnt.fit_properties
-    key = core.digest([cfg, enc(S), claims, arrays])
-    if key in FRESH_MEMO:
-        return FRESH_MEMO[key]
+    return core.digest([cfg, enc(S), claims, arrays]), S, claims, arrays
+
+
+def build_fresh_obj(idnt, cfg):
+    """Freshly built copy of the curve with the *stored* settings applied
+    once. Returns (fresh object, error string or None); memoised per run."""
+    key, S, claims, arrays = fresh_key(idnt, cfg)
+    if key in FRESH_OBJ_MEMO:
+        return FRESH_OBJ_MEMO[key]
     f = curves.make_curve(cfg)
     PLAN.disarm()
     err = None
@@ -305,9 +311,23 @@ def build_fresh(idnt, cfg):
                 f.compute_emodulus_mindelta()
         except _caught() as e:
             err = f"{type(e).__name__}: {str(e)[:100]}"
-    res = (observe(f, False), err)
-    FRESH_MEMO[key] = res
-    return res
+    FRESH_OBJ_MEMO[key] = (f, err)
+    return f, err
+
+
+def build_fresh(idnt, cfg):
+    """Observation of the fresh copy (see build_fresh_obj).
+
+    Memoised per run on (curve, encoded stored settings, claims-a-fit,
+    holds-scan-arrays): the fresh copy is a deterministic function of these
+    (that determinism is what the null-history self-test checks), and most
+    ops leave the stored settings unchanged.
+    """
+    key = fresh_key(idnt, cfg)[0]
+    if key not in FRESH_MEMO:
+        f, err = build_fresh_obj(idnt, cfg)
+        FRESH_MEMO[key] = (observe(f, False), err)
+    return FRESH_MEMO[key]
 
 
 def settings_features(idnt, last_op, outcome):
@@ -738,6 +758,7 @@ class CurveEngineC03:
         # the ops themselves)
         idnt = curves.make_curve(cfg)
         FRESH_MEMO.clear()
+        FRESH_OBJ_MEMO.clear()
         log = []
         probes = core.collections.Counter()
         faults = core.collections.Counter()
@@ -814,3 +835,823 @@ class CurveEngineC03:
                 o = copy.deepcopy(op)
                 o["route"] = "apply"
                 yield o
+
+
+# ==========================================================================
+# C06: preprocessing is a pure, repeatable function
+# ==========================================================================
+def clone_curve(idnt, cfg):
+    """Independent copy of a curve object in its current state.
+
+    copy.deepcopy is not faithful here (dict-subclass reconstruction goes
+    through FitProperties.__setitem__, which resets keys), so the clone is
+    rebuilt from a fresh curve; fidelity is asserted by the caller."""
+    c = curves.make_curve(cfg)
+    for k, v in idnt._data.items():
+        c[k] = np.array(v, copy=True)
+    c.fit_properties.restore(copy.deepcopy(dict(idnt.fit_properties)))
+    c.preprocessing = copy.deepcopy(idnt.preprocessing)
+    c.preprocessing_options = copy.deepcopy(idnt.preprocessing_options)
+    c._preprocessing_details = copy.deepcopy(idnt._preprocessing_details)
+    c._rating = copy.deepcopy(idnt._rating)
+    return c
+
+
+def data_cols(ob):
+    return {c: d for c, d in ob["cols"].items() if c not in FIT_COLS}
+
+
+REQ_MEMO = {}
+
+
+def fresh_request(cfg, steps, options):
+    """What a fresh curve does with the request: (accepted, exc class,
+    data columns)."""
+    key = core.digest([cfg, steps, options])
+    if key in REQ_MEMO:
+        return REQ_MEMO[key]
+    f = curves.make_curve(cfg)
+    PLAN.disarm()
+    with warnings.catch_warnings():
+        warnings.simplefilter("ignore")
+        try:
+            f.apply_preprocessing(copy.deepcopy(steps),
+                                  copy.deepcopy(options))
+            res = (True, None, data_cols(observe(f, False)))
+        except _caught() as e:
+            res = (False, type(e).__name__, None)
+    REQ_MEMO[key] = res
+    return res
+
+
+def effective_request(idnt, op):
+    steps = op["steps"]
+    options = op.get("options")
+    if options is None:
+        options = copy.deepcopy(idnt.preprocessing_options)
+    return copy.deepcopy(steps), options
+
+
+def request_remembered(idnt, steps, options, route):
+    """Is (steps, options) what the curve reports as applied?"""
+    fp = idnt.fit_properties
+    if "preprocessing" in fp and fp["preprocessing"] == steps and \
+            fp.get("preprocessing_options", {}) == options:
+        return "fit_properties"
+    return None
+
+
+def check_request(prop, idnt, cfg, op, outcome, i, steps, options,
+                  was_faulted, probes, pre_attr=None):
+    """P1, P3, P4, P5 for one preprocessing request that was just issued.
+    `steps, options` is the effective request."""
+    route = op.get("route", "apply")
+    feats = {"route": route, "faulted": bool(was_faulted),
+             "fired": bool(outcome.get("fired")),
+             "fired_phase": (outcome.get("fired") or {}).get("phase"),
+             "n_steps": len(steps)}
+    acc, fexc, fcols = fresh_request(cfg, steps, options)
+    feats["fresh_accepts"] = acc
+    # was the request rejected, i.e. did the exception leave
+    # apply_preprocessing?
+    rejected = outcome["apply_calls"] > outcome["apply_returned"]
+    feats["rejected"] = rejected
+    # P3 raw data
+    rd = curves.raw_digest(cfg)
+    for c, a in idnt._raw_data.items():
+        if digest_array(np.asarray(a)) != rd.get(c):
+            return make_violation(prop, "P3", f"raw:{c}", feats,
+                                  f"recorded raw column {c!r} was modified",
+                                  i)
+    if set(idnt._raw_data) != set(rd):
+        return make_violation(prop, "P3", "raw:columns", feats,
+                              "set of recorded raw columns changed", i)
+    if not rejected:
+        if outcome["apply_calls"] == 0:
+            return None
+        if not acc:
+            return make_violation(
+                prop, "P4", "accepted-invalid", feats,
+                f"request {steps} / {options} was accepted although a fresh "
+                f"curve rejects it with {fexc}", i)
+        ob = data_cols(observe(idnt, False))
+        for c in sorted(set(ob) | set(fcols)):
+            if ob.get(c) != fcols.get(c):
+                return make_violation(
+                    prop, "P1", f"col:{c}", feats,
+                    f"column {c!r} after the accepted request differs from a "
+                    f"fresh curve given the same steps and options", i)
+        probes["accepted request checked against fresh curve"] += 1
+        return None
+    # rejected ------------------------------------------------------------
+    if acc and not outcome.get("fired"):
+        return make_violation(
+            prop, "P5", "valid-rejected", feats,
+            f"request {steps} / {options} raised "
+            f"{outcome.get('exc')}: {outcome.get('msg')} although no fault "
+            f"was injected and a fresh curve accepts it", i)
+    where = request_remembered(idnt, steps, options, route)
+    # the attributes count only if the *library* wrote the rejected request
+    # into them during this call (the user may have set them before)
+    if where is None and route != "attr" and pre_attr is not None and \
+            idnt.preprocessing == steps and \
+            idnt.preprocessing_options == options and \
+            pre_attr != [steps, options]:
+        where = "attribute"
+    if where is not None:
+        return make_violation(
+            prop, "P4", f"remembered:{where}", feats,
+            f"request {steps} / {options} raised {outcome.get('exc')} but "
+            f"the curve reports it as applied ({where})", i)
+    probes["rejected request not remembered"] += 1
+    return None
+
+
+class CurveEngineC06:
+    prop = "C06"
+    components = COMPONENTS
+    assumptions = [
+        "a request is *rejected* iff its exception leaves "
+        "apply_preprocessing (a fault in the fit part of "
+        "fit_model(preprocessing=...) leaves an accepted request "
+        "legitimately remembered)",
+        "reference = a fresh curve given the same effective (steps, "
+        "options); options=None means the curve's current default options",
+        "raw data are read through afmformats' _raw_data mapping",
+        "clones used for enumerated fault positions are rebuilt from the "
+        "object's public state and asserted observation-equal",
+    ]
+    rule_text = (
+        "seeded histories of 3-14 preprocessing requests (valid pipelines "
+        "over all 6 steps and option values, invalid: unknown step, missing "
+        "prerequisite, bad option) through 4 routes (apply_preprocessing, "
+        "ret_details, fit_model(preprocessing=), attribute+apply), "
+        "interleaved with fits/edits/ratings; transient faults on the main "
+        "line and, for flagged requests, at EVERY seam call of the request "
+        "on a clone (fail, check, retry). Oracles P1-P5 after every request. "
+        "distinct = op-list digest; non-trivial = at least two requests, "
+        "the later one issued on an object that already saw a request")
+
+    def generate(self, rng, tier, index):
+        cfg = curves.gen_curve_cfg(rng, allow_recorded=rng.random() < 0.5)
+        swarm = {"faults": rng.random() < 0.5,
+                 "invalid": rng.random() < 0.7,
+                 "enum": rng.random() < 0.6,
+                 "other_ops": rng.random() < 0.6}
+        nops = rng.choice([3, 4, 5, 6, 8, 10] if tier == "quick"
+                          else [3, 5, 8, 10, 14])
+        ops = []
+        recent = []
+        while len(ops) < nops:
+            r = rng.random()
+            if swarm["other_ops"] and r < 0.25:
+                k = rng.random()
+                if k < 0.6:
+                    kw = gen_fit_kw(rng, nkeys=rng.choice([0, 1, 2]))
+                    kw.pop("optimal_fit_edelta", None)
+                    ops.append({"op": "fit", "kw": kw})
+                elif k < 0.8:
+                    ops.append(gen_setfp(rng))
+                else:
+                    ops.append({"op": "rate", "kw": {"regressor":
+                                rng.choice(["none", "Decision Tree"])}})
+                continue
+            if recent and rng.random() < 0.3:
+                # repeat an earlier request (skip-if-unchanged path, retry
+                # after failure)
+                base = copy.deepcopy(rng.choice(recent))
+                base.pop("fault", None)
+                base.pop("enum_faults", None)
+                base["route"] = rng.choice(["apply", "apply", "fit_kw",
+                                            "attr", "details"])
+                ops.append(base)
+                continue
+            if swarm["invalid"] and rng.random() < 0.3:
+                steps, options = gen_invalid_request(rng)
+            else:
+                steps = gen_pipeline(rng, full_bias=0.3)
+                options = gen_options(rng, steps)
+            op = {"op": "prep",
+                  "route": rng.choice(["apply", "apply", "fit_kw", "attr",
+                                       "details"]),
+                  "steps": steps, "options": options}
+            if swarm["faults"] and rng.random() < 0.3:
+                op["fault"] = {
+                    "seam": rng.choice(["poc", "poc", "poc_dfb", "smooth",
+                                        "turning", "slopefit"]),
+                    "at": rng.randint(1, 3),
+                    "exc": rng.choice(["RuntimeError", "MemoryError"])}
+            elif swarm["enum"] and rng.random() < 0.5:
+                op["enum_faults"] = True
+            ops.append(op)
+            recent.append(op)
+        return {"config": {"curve": cfg, "swarm": swarm}, "ops": ops}
+
+    def execute(self, run):
+        seams.install_curve_seams()
+        seams.install_sim_model()
+        seams.install_lmfit_determinism()
+        cfg = run["config"]["curve"]
+        idnt = curves.make_curve(cfg)
+        REQ_MEMO.clear()
+        log = []
+        probes = core.collections.Counter()
+        faults = core.collections.Counter()
+        states = set()
+        violation = None
+        nreq = 0
+        nontrivial = False
+        oracle_checks = 0
+        executed = 0
+        for i, op in enumerate(run["ops"]):
+            if op["op"] != "prep":
+                outcome = apply_op(idnt, op)
+                executed += 1
+                log.append({"i": i, "op": op["op"], "out": outcome,
+                            "obs": core.digest(observe(idnt))})
+                continue
+            steps, options = effective_request(idnt, op)
+            # ---- enumerated fault positions on clones -------------------
+            if op.get("enum_faults"):
+                violation = self.enumerate_faults(idnt, cfg, op, steps,
+                                                  options, i, probes, faults)
+                oracle_checks += 1
+                if violation is not None:
+                    break
+            # ---- main line ----------------------------------------------
+            pre_attr = [copy.deepcopy(idnt.preprocessing),
+                        copy.deepcopy(idnt.preprocessing_options)]
+            outcome = apply_op(idnt, op)
+            executed += 1
+            nreq += 1
+            if nreq >= 2:
+                nontrivial = True
+            if outcome.get("fired"):
+                f = outcome["fired"]
+                faults[f"{f['seam']}:{f['exc']}"] += 1
+                probes[f"fault fired in phase {f['phase']}"] += 1
+            log.append({"i": i, "op": "prep", "out": outcome,
+                        "obs": core.digest(observe(idnt))})
+            violation = check_request(self.prop, idnt, cfg, op, outcome, i,
+                                      steps, options, "fault" in op, probes,
+                                      pre_attr)
+            oracle_checks += 1
+            if violation is not None:
+                break
+            rejected = outcome["apply_calls"] > outcome["apply_returned"]
+            acc, fexc, _ = fresh_request(cfg, steps, options)
+            states.add(core.digest([steps, options, rejected, acc,
+                                    "hash" in idnt.fit_properties]))
+            if rejected and not acc:
+                # P4: deterministically invalid request repeated
+                probes["rejected request repeated"] += 1
+                again = apply_op(idnt, {"op": "prep", "route": "apply",
+                                        "steps": steps, "options": options})
+                rej2 = again["apply_calls"] > again["apply_returned"]
+                if not rej2:
+                    violation = make_violation(
+                        self.prop, "P4", "repeat-accepted",
+                        {"route": op.get("route"), "fresh_exc": fexc},
+                        f"invalid request {steps} / {options} is accepted "
+                        f"when repeated", i)
+                    break
+                if again.get("exc") != fexc:
+                    violation = make_violation(
+                        self.prop, "P4", "repeat-other-error",
+                        {"route": op.get("route"), "fresh_exc": fexc,
+                         "exc": again.get("exc")},
+                        f"invalid request {steps} / {options}: repeated "
+                        f"request raised {again.get('exc')}, a fresh curve "
+                        f"raises {fexc}", i)
+                    break
+            elif not rejected and outcome["apply_calls"]:
+                # P2: re-issuing the accepted request changes nothing
+                before = observe(idnt)
+                again = apply_op(idnt, {"op": "prep", "route": "apply",
+                                        "steps": steps, "options": options})
+                after = observe(idnt)
+                oracle_checks += 1
+                if not again.get("ok") or before != after:
+                    site = "raised" if not again.get("ok") else "changed"
+                    if site == "changed":
+                        for part in ("cols", "fp", "rating",
+                                     "preprocessing",
+                                     "preprocessing_options"):
+                            if before[part] != after[part]:
+                                site = f"changed:{part}"
+                                break
+                    violation = make_violation(
+                        self.prop, "P2", site,
+                        {"route": op.get("route")},
+                        f"re-applying the accepted request {steps} / "
+                        f"{options} {site}", i)
+                    break
+                probes["accepted request re-applied"] += 1
+        return {"violation": violation, "log_digest": core.digest(log),
+                "log": log, "probes": dict(probes), "faults": dict(faults),
+                "states": sorted(states), "nontrivial": nontrivial,
+                "oracle_checks": oracle_checks, "ops_executed": executed}
+
+    def enumerate_faults(self, idnt, cfg, op, steps, options, i, probes,
+                         faults):
+        """Fault at every seam call of this request, each on its own clone:
+        fail once, check, retry without fault, check."""
+        base = clone_curve(idnt, cfg)
+        if observe(base) != observe(idnt):
+            raise core.HarnessError("clone is not observation-equal")
+        # count the seam calls this request makes (on a clone)
+        probe_op = {k: v for k, v in op.items()
+                    if k not in ("fault", "enum_faults")}
+        PLAN.disarm()
+        c0 = dict(PLAN.total)
+        out0 = apply_op(base, probe_op)
+        counts = {s: PLAN.total[s] - c0.get(s, 0)
+                  for s in ("poc", "poc_dfb", "smooth", "turning",
+                            "slopefit")}
+        for seam, n in sorted(counts.items()):
+            for at in range(1, n + 1):
+                cl = clone_curve(idnt, cfg)
+                pre_attr = [copy.deepcopy(cl.preprocessing),
+                            copy.deepcopy(cl.preprocessing_options)]
+                fop = dict(probe_op)
+                fop["fault"] = {"seam": seam, "at": at,
+                                "exc": "RuntimeError" if at % 2 else
+                                "MemoryError"}
+                out = apply_op(cl, fop)
+                if not out.get("fired"):
+                    continue
+                f = out["fired"]
+                faults[f"enum:{seam}:{f['exc']}"] += 1
+                probes["enumerated fault position"] += 1
+                v = check_request(self.prop, cl, cfg, fop, out, i, steps,
+                                  options, True, probes, pre_attr)
+                if v is not None:
+                    v["features"]["enum_seam"] = seam
+                    v["features"]["enum_at"] = at
+                    return v
+                # retry without fault: P5 + P1
+                out2 = apply_op(cl, probe_op)
+                v = check_request(self.prop, cl, cfg, probe_op, out2, i,
+                                  steps, options, False, probes)
+                if v is not None:
+                    v["features"]["enum_seam"] = seam
+                    v["features"]["enum_at"] = at
+                    v["features"]["retry"] = True
+                    v["site"] = v["site"] + ":retry"
+                    return v
+                probes["retry after transient failure accepted"] += 1
+        return None
+
+    def simplify_op(self, op):
+        for k in ("fault", "enum_faults"):
+            if k in op:
+                o = dict(op)
+                o.pop(k)
+                yield o
+        if op["op"] == "prep":
+            if op.get("options"):
+                o = copy.deepcopy(op)
+                o["options"] = None
+                yield o
+            if op.get("route") != "apply":
+                o = copy.deepcopy(op)
+                o["route"] = "apply"
+                yield o
+            if len(op["steps"]) > 1:
+                for j in range(len(op["steps"])):
+                    o = copy.deepcopy(op)
+                    o["steps"].pop(j)
+                    yield o
+        if op["op"] == "fit" and op.get("kw"):
+            for k in sorted(op["kw"]):
+                o = copy.deepcopy(op)
+                o["kw"].pop(k)
+                yield o
+
+
+# ==========================================================================
+# C09: rating is total, deterministic, in range, tied to the current fit
+# ==========================================================================
+REGRESSORS = ["AdaBoost", "Decision Tree", "Extra Trees",
+              "Gradient Tree Boosting", "Random Forest",
+              "SVR (RBF kernel)", "SVR (linear kernel)"]
+RANGE_CHECKED = ["Decision Tree", "Extra Trees", "Random Forest"]
+CON_FEATURES = ["feat_con_apr_flatness", "feat_con_apr_size",
+                "feat_con_apr_sum", "feat_con_bln_slope",
+                "feat_con_bln_variation", "feat_con_cp_curvature",
+                "feat_con_cp_magnitude", "feat_con_idt_maxima_75perc",
+                "feat_con_idt_monotony", "feat_con_idt_spike_area",
+                "feat_con_idt_sum", "feat_con_idt_sum_75perc"]
+BIN_FEATURES = ["feat_bin_apr_spikes_count", "feat_bin_cp_position",
+                "feat_bin_size"]
+
+
+def _zef18_path():
+    from nanite.rate.rater import IndentationRater
+    return IndentationRater.get_training_set_path("zef18")
+
+
+def resolve_ts(name, names, scratch):
+    """Symbolic training-set name -> what the caller passes. In-memory sets
+    are a *new*, equal tuple on every call."""
+    import pathlib
+    import shutil
+    from nanite.rate.rater import IndentationRater
+    if name == "zef18":
+        return "zef18"
+    kind, which = name.split(":")
+    src = pathlib.Path(_zef18_path())
+    if which == "copy":
+        d = scratch / "ts_copy"
+        if not d.exists():
+            shutil.copytree(src, d)
+    else:  # "small": every third sample
+        d = scratch / "ts_small"
+        if not d.exists():
+            d.mkdir()
+            for f in sorted(src.glob("train_*.txt")):
+                lines = f.read_text().splitlines()
+                (d / f.name).write_text("\n".join(lines[::3]) + "\n")
+    if kind == "dir":
+        return str(d) if which == "copy" else d   # str and pathlib.Path
+    X, y = IndentationRater.load_training_set(path=d, names=names)
+    return (X, y)
+
+
+def rate_key(idnt, kw, tsname):
+    fp = idnt.fit_properties
+    h = fp["hash"] if (fp and "hash" in fp) else "none"
+    n = kw.get("names")
+    return [h, kw.get("regressor", "Extra Trees"), tsname,
+            None if n is None else list(n), kw.get("lda")]
+
+
+def gen_rate_kw(rng):
+    kw = {}
+    r = rng.random()
+    if r < 0.1:
+        kw["regressor"] = rng.choice(["none", "None", "NONE"])
+    elif r < 0.75:
+        kw["regressor"] = rng.choice(
+            ["Extra Trees", "Decision Tree", "Random Forest",
+             "Decision Tree", "Extra Trees"] + REGRESSORS)
+    ts = rng.choice(["zef18", "zef18", "zef18", "dir:copy", "dir:small",
+                     "mem:copy", "mem:small"])
+    if rng.random() < 0.35:
+        k = rng.randint(2, 6)
+        names = rng.sample(CON_FEATURES, k)
+        if rng.random() < 0.5:
+            names += rng.sample(BIN_FEATURES, rng.randint(1, 3))
+        kw["names"] = names
+    if rng.random() < 0.35:
+        kw["lda"] = rng.choice([True, False, None])
+    return kw, ts
+
+
+class CurveEngineC09:
+    prop = "C09"
+    components = COMPONENTS
+    assumptions = [
+        "a configuration is in the domain iff the standalone get_rater "
+        "builds for it; out-of-domain calls may raise",
+        "'successful current fit' = fit_properties holds 'hash' and "
+        "success is True; in every other state the accepted values are -1, "
+        "or 0 when the approach segment has fewer than 600 points (the only "
+        "exclusion criterion that is defined without a fit)",
+        "reference value = standalone IndentationRater (memoised per "
+        "configuration) applied to a freshly built curve with the stored "
+        "settings; rater construction at the nanite.indent.get_rater seam "
+        "is memoised per configuration as well (construction is a "
+        "deterministic function of the configuration)",
+        "range [0, 10] is demanded for Extra Trees, Random Forest, Decision "
+        "Tree only (measured: Gradient Boosting 10.19, linear SVR 14.2)",
+        "cross-process clause: a sample of runs is re-executed in a fresh "
+        "interpreter under another PYTHONHASHSEED inside the run itself",
+    ]
+    rule_text = (
+        "seeded histories (3-12 ops) mixing preprocessing, fits (valid, "
+        "unsuccessful, aborted by injected optimiser faults), setting edits "
+        "and rate_quality over 7 regressors + 'none', 5 training-set forms "
+        "(label, str dir, Path dir, fresh in-memory tuples), feature "
+        "subsets/orders and LDA flags; oracles Q1-Q6 after every rate call. "
+        "distinct = op-list digest; non-trivial = a rate call issued in a "
+        "state other than 'never touched' after at least one other rate or "
+        "state change")
+
+    def generate(self, rng, tier, index):
+        cfg = curves.gen_curve_cfg(rng, allow_recorded=rng.random() < 0.3,
+                                   big=rng.random() < 0.75)
+        swarm = {"faults": rng.random() < 0.4,
+                 "invalid": rng.random() < 0.4,
+                 "few_configs": rng.random() < 0.5}
+        nops = rng.choice([3, 4, 6, 8, 10] if tier == "quick"
+                          else [4, 6, 8, 10, 12])
+        pool = [gen_rate_kw(rng) for _ in range(2 if swarm["few_configs"]
+                                                else 4)]
+        ops = []
+        if rng.random() < 0.2:
+            kw, ts = rng.choice(pool)
+            ops.append({"op": "rate", "kw": kw, "ts": ts})
+        if rng.random() < 0.85:
+            ops.append({"op": "prep", "route": "apply",
+                        "steps": ["compute_tip_position",
+                                  "correct_force_offset",
+                                  "correct_tip_offset"], "options": None})
+            if rng.random() < 0.7:
+                ops.append({"op": "fit", "kw": gen_fit_kw(
+                    rng, nkeys=rng.choice([0, 0, 1]))})
+        while len(ops) < nops:
+            r = rng.random()
+            if r < 0.45:
+                kw, ts = rng.choice(pool) if rng.random() < 0.8 \
+                    else gen_rate_kw(rng)
+                kw = copy.deepcopy(kw)
+                if "names" in kw and rng.random() < 0.2:
+                    rng.shuffle(kw["names"])
+                ops.append({"op": "rate", "kw": kw, "ts": ts})
+            elif r < 0.75:
+                inv = swarm["invalid"] and rng.random() < 0.15
+                kw = gen_fit_kw(rng, nkeys=rng.choice([0, 1, 1, 2]),
+                                invalid=inv)
+                if kw.get("optimal_fit_edelta"):
+                    kw["optimal_fit_num_samples"] = 5
+                op = {"op": "fit", "kw": kw}
+                if swarm["faults"] and rng.random() < 0.3:
+                    op["fault"] = gen_fault(rng, ["minimize"], 2)
+                ops.append(op)
+            elif r < 0.87:
+                ops.append(gen_setfp(rng))
+            else:
+                steps = gen_pipeline(rng)
+                ops.append({"op": "prep",
+                            "route": rng.choice(["apply", "fit_kw"]),
+                            "steps": steps,
+                            "options": gen_options(rng, steps)})
+        xproc = (index % 16 == 5)
+        return {"config": {"curve": cfg, "swarm": swarm, "xproc": xproc},
+                "ops": ops}
+
+    def execute(self, run):
+        seams.install_curve_seams()
+        seams.install_sim_model()
+        seams.install_lmfit_determinism()
+        seams.install_rater_memo(RATERS)
+        with core.Scratch("c09") as scratch:
+            res = self._execute(run, scratch)
+        if run["config"].get("xproc") and res["violation"] is None \
+                and not run.get("_child"):
+            res["violation"] = self.cross_process(run, res)
+            res["probes"]["run re-executed in a fresh interpreter under "
+                          "another hash seed"] = 1
+        return res
+
+    def cross_process(self, run, res):
+        import json
+        import os
+        import subprocess
+        import sys
+        import tempfile
+        child = dict(run, _child=True)
+        with tempfile.NamedTemporaryFile("w", suffix=".json",
+                                         delete=False) as fd:
+            json.dump(child, fd, default=core._json_default)
+            path = fd.name
+        try:
+            env = dict(os.environ, PYTHONHASHSEED="4242")
+            p = subprocess.run(
+                [sys.executable, "-B", "-m", "sim.main", "--exec-run", path],
+                cwd=str(core.VERIF), env=env, capture_output=True, text=True,
+                timeout=600)
+        finally:
+            os.unlink(path)
+        line = [ln for ln in p.stdout.splitlines()
+                if ln.startswith("RETS ")]
+        if p.returncode != 0 or not line:
+            raise core.HarnessError(
+                f"cross-process child failed rc={p.returncode}: "
+                f"{p.stdout[-800:]} {p.stderr[-800:]}")
+        theirs = json.loads(line[0][5:])
+        if theirs["rets"] != res["rets"]:
+            k = next((i for i, (a, b) in enumerate(
+                zip(theirs["rets"], res["rets"])) if a != b), -1)
+            return make_violation(
+                self.prop, "Q6", "other-process", {"first_diff": k},
+                f"returned ratings differ in a fresh interpreter with "
+                f"another hash seed: {res['rets']} vs {theirs['rets']}")
+        if theirs["log_digest"] != res["log_digest"]:
+            raise core.HarnessError("cross-process log digest differs "
+                                    "although ratings agree")
+        return None
+
+    def _execute(self, run, scratch):
+        cfg = run["config"]["curve"]
+        idnt = curves.make_curve(cfg)
+        FRESH_MEMO.clear()
+        FRESH_OBJ_MEMO.clear()
+        log, rets = [], []
+        probes = core.collections.Counter()
+        faults = core.collections.Counter()
+        states = set()
+        violation = None
+        nontrivial = False
+        oracle_checks = 0
+        executed = 0
+        cache_ref = None     # key of the call that filled the cache
+        prep_epoch = 0       # counts preprocessing changes
+        changed = 0
+        for i, op in enumerate(run["ops"]):
+            if op["op"] != "rate":
+                before_prep = enc([idnt.fit_properties.get("preprocessing"),
+                                   idnt.fit_properties.get(
+                                       "preprocessing_options")])
+                outcome = apply_op(idnt, op)
+                executed += 1
+                changed += 1
+                if outcome.get("fired"):
+                    f = outcome["fired"]
+                    faults[f"{f['seam']}:{f['exc']}"] += 1
+                after_prep = enc([idnt.fit_properties.get("preprocessing"),
+                                  idnt.fit_properties.get(
+                                      "preprocessing_options")])
+                if after_prep != before_prep:
+                    # the remembered pipeline changed: the cache must not
+                    # survive this (a request equal to the remembered one is
+                    # skipped and legitimately keeps the cache)
+                    prep_epoch += 1
+                log.append({"i": i, "op": op["op"], "out": outcome,
+                            "obs": core.digest(observe_c09(idnt))})
+                continue
+            # ---- a rate call -------------------------------------------
+            kw = copy.deepcopy(op.get("kw", {}))
+            tsname = op.get("ts", "zef18")
+            names = kw.get("names")
+            try:
+                ts = resolve_ts(tsname, names, scratch)
+                ts_ref = resolve_ts(tsname, names, scratch)
+            except Exception:
+                # feature subset not loadable -> out of domain
+                continue
+            call_kw = dict(kw, training_set=ts)
+            feats = {"regressor": kw.get("regressor", "Extra Trees"),
+                     "ts": tsname.split(":")[0], "names": names is not None,
+                     "lda": kw.get("lda"),
+                     "fp_empty": not bool(idnt.fit_properties),
+                     "has_hash": "hash" in idnt.fit_properties,
+                     "success": bool(idnt.fit_properties.get("success",
+                                                             False))}
+            key = rate_key(idnt, kw, tsname)
+            state_id = core.digest([feats, key[1:]])
+            states.add(state_id)
+            if changed and (feats["has_hash"] or not feats["fp_empty"]):
+                nontrivial = True
+            changed += 1
+            # domain: can the standalone rater be built?
+            reg = kw.get("regressor", "Extra Trees")
+            in_domain = True
+            ref_rater = None
+            if reg.lower() != "none":
+                try:
+                    with warnings.catch_warnings():
+                        warnings.simplefilter("ignore")
+                        ref_rater = RATERS.get(reg, ts_ref, names,
+                                               kw.get("lda"))
+                except Exception:
+                    in_domain = False
+            outcome = apply_op(idnt, {"op": "rate", "kw": call_kw})
+            executed += 1
+            logged = dict(outcome)
+            log.append({"i": i, "op": "rate", "ts": tsname, "out": logged,
+                        "obs": core.digest(observe_c09(idnt))})
+            rets.append(outcome.get("ret", outcome.get("exc")))
+            if not in_domain:
+                probes["out-of-domain configuration"] += 1
+                continue
+            oracle_checks += 1
+            # Q1 total
+            if not outcome.get("ok"):
+                violation = make_violation(
+                    self.prop, "Q1", f"raises:{outcome.get('exc')}", feats,
+                    f"rate_quality raised {outcome.get('exc')}: "
+                    f"{outcome.get('msg')}", i)
+                break
+            val = float.fromhex(outcome["ret"]) if outcome["ret"] != "nan" \
+                else float("nan")
+            # Q3 'none'
+            if reg.lower() == "none":
+                probes["regressor 'none'"] += 1
+                if val != -1:
+                    violation = make_violation(
+                        self.prop, "Q3", "none", feats,
+                        f"regressor {reg!r} returned {val}, expected -1", i)
+                    break
+                continue
+            # Q5 cache accounting
+            constructed = outcome["rater_constructions"] > 0
+            if constructed:
+                cache_ref = (key, prep_epoch)
+                probes["rating computed (rater requested)"] += 1
+            else:
+                probes["rating served from cache"] += 1
+                if cache_ref is None or cache_ref != (key, prep_epoch):
+                    what = "nothing filled the cache" if cache_ref is None \
+                        else (f"cache was filled for {cache_ref[0]} at "
+                              f"preprocessing epoch {cache_ref[1]}")
+                    diff = "none"
+                    if cache_ref is not None:
+                        for nm, a, b in zip(["hash", "regressor",
+                                             "training_set", "names", "lda"],
+                                            cache_ref[0], key):
+                            if a != b:
+                                diff = nm
+                                break
+                        else:
+                            diff = "preprocessing"
+                    feats["changed"] = diff
+                    violation = make_violation(
+                        self.prop, "Q5", f"stale-cache:{diff}", feats,
+                        f"a cached rating was returned for {key} although "
+                        f"{what}", i)
+                    break
+            # Q2 value
+            fitted = feats["has_hash"] and feats["success"]
+            if not fitted:
+                probes["rated without a successful current fit"] += 1
+                napp = int(np.sum(np.asarray(idnt["segment"]) == 0))
+                allowed = [-1.0] + ([0.0] if napp < 600 else [])
+                if val not in allowed:
+                    violation = make_violation(
+                        self.prop, "Q2", "nofit-value", feats,
+                        f"no successful current fit, approach points "
+                        f"{napp}: returned {val}, allowed {allowed}", i)
+                    break
+            else:
+                probes["rated with a successful current fit"] += 1
+                fresh, err = build_fresh_obj(idnt, cfg)
+                if err is not None:
+                    violation = make_violation(
+                        self.prop, "Q2", "fresh-raises", feats,
+                        f"fresh copy with stored settings raises {err}", i)
+                    break
+                with warnings.catch_warnings():
+                    warnings.simplefilter("ignore")
+                    exp = float(ref_rater.rate(datasets=fresh)[0])
+                if not (val == exp or (val != val and exp != exp)):
+                    violation = make_violation(
+                        self.prop, "Q2", "value", feats,
+                        f"rate_quality returned {val!r}, the standalone "
+                        f"rater on a fresh copy gives {exp!r}", i)
+                    break
+                if exp == 0:
+                    probes["binary criterion failed -> 0"] += 1
+                elif exp == -1:
+                    probes["undefined feature -> -1"] += 1
+                else:
+                    probes["regressor prediction"] += 1
+            # Q4 range
+            if reg in RANGE_CHECKED and not (val == -1 or 0 <= val <= 10):
+                violation = make_violation(
+                    self.prop, "Q4", "range", feats,
+                    f"{reg} returned {val} outside [0, 10]", i)
+                break
+            # repeated call: identical value
+            again = apply_op(idnt, {"op": "rate", "kw": dict(
+                kw, training_set=resolve_ts(tsname, names, scratch))})
+            if again.get("ret") != outcome.get("ret"):
+                violation = make_violation(
+                    self.prop, "Q2", "repeat", feats,
+                    f"repeated call returned {again.get('ret')} / "
+                    f"{again.get('exc')} after {outcome.get('ret')}", i)
+                break
+            if again["rater_constructions"]:
+                cache_ref = (key, prep_epoch)
+        return {"violation": violation, "log_digest": core.digest(log),
+                "log": log, "rets": rets, "probes": dict(probes),
+                "faults": dict(faults), "states": sorted(states),
+                "nontrivial": nontrivial, "oracle_checks": oracle_checks,
+                "ops_executed": executed}
+
+    def simplify_op(self, op):
+        if "fault" in op:
+            o = dict(op)
+            o.pop("fault")
+            yield o
+        if op["op"] in ("fit", "rate") and op.get("kw"):
+            for k in sorted(op["kw"]):
+                o = copy.deepcopy(op)
+                o["kw"].pop(k)
+                yield o
+        if op["op"] == "rate" and op.get("ts", "zef18") != "zef18":
+            o = copy.deepcopy(op)
+            o["ts"] = "zef18"
+            yield o
+
+
+def observe_c09(idnt):
+    """Observation without scratch paths (training-set paths are run
+    private)."""
+    ob = observe(idnt, with_rating=False)
+    r = idnt._rating
+    if r is not None:
+        ob["rating"] = [enc(r[0]), enc(r[1]),
+                        "ts", enc(r[3]), enc(r[4]), enc(r[5])]
+    return ob
